@@ -209,6 +209,10 @@ class Poly:
         if isinstance(n, Fraction) and n.denominator == 1:
             n = int(n)
         if not isinstance(n, int):
+            if isinstance(n, (float, Fraction)) and not self.is_const():
+                # a root of a symbolic count: opaque, with the square root in the same form as sqrt(x)
+                base = _sym_arg(self)
+                return Poly.atom(('S', Sym('sqrt', base) if n == 0.5 else Sym('pow', base, Fraction(n).limit_denominator(1000))))
             raise Top(f"non-integer power {n!r}")
         if n < 0:
             return Poly.const(1) / (self ** (-n))
@@ -835,6 +839,16 @@ class AT:
         if self.axes != ():
             raise Top(f"expected a scalar, got axes {self.axes}")
         return self.data[()]
+
+
+def _sym_arg(p):
+    """form in which a polynomial appears as an argument of an opaque term (see extern.fz)"""
+    if p.is_const() and p.cval().denominator == 1:
+        return int(p.cval())
+    at = p.single_atom()
+    if at is not None and at[0] == 'S':
+        return at[1]
+    return p
 
 
 def at_key(a):
